@@ -15,6 +15,7 @@ import struct
 import types
 
 import z3
+builtins_range = range
 
 from . import engine as E
 from .engine import SymInt, SymReal, SymBool, SymStr, ModelGap, is_sym, ite, lift
@@ -67,6 +68,16 @@ uint8, uint16, uint32 = DType("i8", ("u", 8)), DType("i8", ("u", 16)), DType("i8
 int8, int16, int32 = DType("i8", ("i", 8)), DType("i8", ("i", 16)), DType("i8", ("i", 32))
 uint64 = DType("i8", ("u", 64))
 intc, uintc, short, ushort, ubyte, byte = int32, uint32, int16, uint16, uint8, int8
+
+
+def min_scalar_type(a):
+    """the smallest integer type that holds the (concrete) integer a"""
+    a = _unbox(a)
+    if isinstance(a, bool) or not isinstance(a, int):
+        raise ModelGap("np.min_scalar_type of %r" % (type(a).__name__,))
+    if a >= 0:
+        return uint8 if a < 2 ** 8 else uint16 if a < 2 ** 16 else uint32 if a < 2 ** 32 else uint64
+    return int8 if a >= -2 ** 7 else int16 if a >= -2 ** 15 else int32 if a >= -2 ** 31 else int64
 
 
 def _wrap_int(v, width):
@@ -1294,6 +1305,42 @@ def _nexp(x):
 
 log = _mk_math("log", E.LOG, _clog, _nlog)
 exp = _mk_math("exp", E.EXP, _cexp, _nexp)
+
+
+def histogram(a, bins=10, range=None, density=None, weights=None):
+    """numpy.histogram for concrete numbers and explicit bin edges (or an int number of equal-width bins): all bins are
+    half-open except the last, which is closed"""
+    if range is not None or density or weights is not None:
+        raise ModelGap("np.histogram with range / density / weights")
+    vals = [_unbox(v) for v in _as(a).flat]
+    if isinstance(bins, int):
+        if not vals:
+            lo, hi = 0.0, 1.0
+        else:
+            lo, hi = float(min(vals)), float(max(vals))
+            if lo == hi:
+                lo, hi = lo - 0.5, hi + 0.5
+        edges = [lo + (hi - lo) * i / bins for i in builtins_range(bins + 1)]
+    else:
+        edges = [_unbox(v) for v in _as(bins).flat]
+    if any(isinstance(v, (SymInt, SymReal)) for v in vals + edges):
+        raise ModelGap("np.histogram of symbolic values")
+    if len(edges) < 2:
+        raise ValueError("`bins` must have size >= 2" if False else "bins must have at least two edges")
+    if any(edges[i] > edges[i + 1] for i in builtins_range(len(edges) - 1)):
+        raise ValueError("`bins` must increase monotonically, when an array")
+    counts = [0] * (len(edges) - 1)
+    for v in vals:
+        if v < edges[0] or v > edges[-1]:
+            continue
+        k = len(edges) - 2
+        for i in builtins_range(len(edges) - 1):
+            if v < edges[i + 1]:
+                k = i
+                break
+        counts[k] += 1
+    edt = "i8" if all(isinstance(e, int) for e in edges) else "f8"
+    return ndarray.fresh(counts, (len(counts),), "i8"), ndarray.fresh(list(edges), (len(edges),), edt)
 
 
 def logaddexp(a, b):
